@@ -19,7 +19,8 @@
 (*   dirs   : direct-handle records [d, t, a, born] (born = rm at minting) *)
 (*   evc,evd: pending created / destroyed events per archetype (sets)      *)
 (*   aver   : archetype version last seen in a dump (for overflow faults)  *)
-(*   wrapped: per archetype, a generation wrap has been observed           *)
+(*   wrapped / awrapped: per archetype, a slot generation / the archetype  *)
+(*            version has wrapped (feature wrapping_version only)          *)
 (* Every check yields violation records [p, at, what]; p is the sequence   *)
 (* of property ids the broken clause belongs to.                           *)
 (***************************************************************************)
@@ -57,7 +58,8 @@ Zeros == [i \in 1..NA |-> 0]
 NewWorld(caps) ==
     [alive |-> <<>>, issued |-> {}, cap |-> caps, rm |-> Zeros, dirs |-> {},
      evc |-> [i \in 1..NA |-> {}], evd |-> [i \in 1..NA |-> {}],
-     aver |-> [i \in 1..NA |-> <<0, 1>>], wrapped |-> [i \in 1..NA |-> FALSE]]
+     aver |-> [i \in 1..NA |-> <<0, 1>>], wrapped |-> [i \in 1..NA |-> FALSE],
+     awrapped |-> [i \in 1..NA |-> FALSE]]
 
 (***************************************************************************)
 (* Keys.  A key record is [k, kd, lv, at]: token, kind ("e" typed entity,  *)
@@ -90,7 +92,11 @@ OverflowDue(w, t) == /\ ~Decl.wrapping
 
 RemoveEnt(w, t) ==
     LET a == w.alive[t].a IN
-    [w EXCEPT !.alive = Remove(@, t), !.rm[a + 1] = @ + 1, !.evd[a + 1] = @ \cup {t}]
+    \* with wrapping_version a removal at the limit wraps the generation / archetype version:
+    \* from then on reuse of ancient handles is the documented exception (C08, C09, C19)
+    [w EXCEPT !.alive = Remove(@, t), !.rm[a + 1] = @ + 1, !.evd[a + 1] = @ \cup {t},
+              !.wrapped[a + 1] = @ \/ (Decl.wrapping /\ Gen(t) = MaxGen),
+              !.awrapped[a + 1] = @ \/ (Decl.wrapping /\ w.aver[a + 1] = MaxGen)]
 
 (***************************************************************************)
 (* Registry accounting shared by all operations (C04): the values dropped  *)
@@ -239,7 +245,8 @@ DirProbeViol(w, pr, at) ==
     IN UNION {
          IF valid THEN If(\E t \in tg : ~GoodFor(w, g[1], t) /\ ~(g[1][1] = "d" /\ g[1][2] = k),
                           {V(LiveTags(w, g[1], CHOOSE t \in tg : TRUE, <<"C09">>), at, "current direct handle is refused or designates another entity")})
-         ELSE IF known THEN If(g[1][1] # "n", {V(<<"C09">>, at, "direct handle accepted after a removal from its archetype")})
+         ELSE IF known THEN If(g[1][1] # "n" /\ ~(\E r \in w.dirs : r.d = k /\ w.awrapped[r.a + 1]),
+                               {V(<<"C09">>, at, "direct handle accepted after a removal from its archetype")})
          ELSE If(g[1][1] \notin {"n", "p"}, {V(<<"C03">>, at, "lookup accepts a foreign direct handle")})
          : g \in SeqSet(pr.own)}
     \cup UNION {
@@ -316,7 +323,9 @@ VisitStep(w, q, v, visited, setp, destroyAllowed, at) ==
         w2 == IF okTok /\ setp # <<>> /\ rwCols # {}
               THEN [w1 EXCEPT !.alive[t].vals = SetVals(@, rwCols, setp[1])] ELSE w1
         destroys == v.dec \in {"cd", "bd"}
-        w3 == IF destroys /\ okTok THEN RemoveEnt(w2, t) ELSE w2
+        \* the documented overflow panic: the removal does not happen, the loop ends by unwinding
+        ovf == destroys /\ okTok /\ OverflowDue(w2, t)
+        w3 == IF destroys /\ okTok /\ ~ovf THEN RemoveEnt(w2, t) ELSE w2
         viol ==
              If(~okArch, {V(<<"C05">>, at, "closure ran on an archetype the query does not match")})
         \cup If(~okTok, {V(<<"C06", "C07">>, at, "closure ran for something that is not a live entity of that archetype")})
@@ -326,17 +335,19 @@ VisitStep(w, q, v, visited, setp, destroyAllowed, at) ==
         \cup If(hasD /\ v.d[1] # IdOf(a), {V(<<"C14">>, at, "direct handle parameter carries a foreign archetype id")})
         \cup If("dnow" \in DOMAIN v /\ v.dnow[1] # "y", {V(<<"C09">>, at, "direct handle parameter is not accepted at the moment it is issued")})
         \cup If(destroys /\ ~destroyAllowed, {V(<<"TOOL">>, at, "destroy decision outside ecs_iter_destroy!")})
-    IN [w |-> w3, v |-> viol,
-        dropped |-> IF destroys /\ okTok THEN Ids(vals) ELSE {},
-        zdropped |-> IF destroys /\ okTok /\ (\E i \in DOMAIN vals : vals[i] = <<0, 0>>) THEN 1 ELSE 0]
+    IN [w |-> w3, v |-> viol, ovf |-> ovf,
+        dropped |-> IF destroys /\ okTok /\ ~ovf THEN Ids(vals) ELSE {},
+        zdropped |-> IF destroys /\ okTok /\ ~ovf /\ (\E i \in DOMAIN vals : vals[i] = <<0, 0>>) THEN 1 ELSE 0]
 
 RECURSIVE FoldVisits(_, _, _, _, _, _, _, _)
 FoldVisits(w, q, visits, i, visited, setp, destroyAllowed, at) ==
-    IF i > Len(visits) THEN [w |-> w, v |-> {}, dropped |-> {}, visited |-> visited, zd |-> 0]
+    IF i > Len(visits) THEN [w |-> w, v |-> {}, dropped |-> {}, visited |-> visited, zd |-> 0, ovf |-> FALSE]
     ELSE LET s == VisitStep(w, q, visits[i], visited, setp, destroyAllowed, at)
              late == If(i > 1 /\ visits[i - 1].dec \in {"b", "bd"},
                         {V(<<"C06", "C07">>, at, "closure ran again after Break")})
+                \cup If(s.ovf /\ i < Len(visits),
+                        {V(<<"C10", "C07">>, at, "loop went on after a removal hit the version-overflow panic")})
              r == FoldVisits(s.w, q, visits, i + 1, visited \cup {visits[i].tok}, setp, destroyAllowed, at)
          IN [w |-> r.w, v |-> s.v \cup late \cup r.v, dropped |-> s.dropped \cup r.dropped,
-             visited |-> r.visited, zd |-> s.zdropped + r.zd]
+             visited |-> r.visited, zd |-> s.zdropped + r.zd, ovf |-> s.ovf \/ r.ovf]
 =============================================================================
